@@ -1609,6 +1609,11 @@ mod parent {
             cmd.args(variant).arg("-o").arg(&log).arg(&exe);
             cmd.args(["--workload", "--parent"]).arg(&parent).args(["--seed", &ctx.seed.to_string(), "--tier", ctx.tier_name()]);
             cmd.env_clear().env("PATH", "/usr/bin:/bin").env("NO_PROXY", "*").env("LANG", "C");
+            // coverage measurement (bin/coverage) only: let the child write its counters; the file is created at exit,
+            // after the last monitored window
+            if let Some(p) = std::env::var_os("LLVM_PROFILE_FILE") {
+                cmd.env("LLVM_PROFILE_FILE", p);
+            }
             cmd.stdin(std::process::Stdio::null()).stdout(std::process::Stdio::piped()).stderr(std::process::Stdio::piped());
             let mut ch = match cmd.spawn() {
                 Ok(c) => c,
